@@ -3,6 +3,7 @@
 package storeops
 
 import (
+	"github.com/redis/go-redis/v9"
 	"github.com/sergeii/swat4master/internal/core/entities/details"
 	"encoding/hex"
 	"errors"
@@ -183,6 +184,13 @@ func ErrClass(err error) string {
 	case strings.Contains(err.Error(), "check lock ownership"):
 		return "err:locklost"
 	case strings.Contains(err.Error(), "lock not acquired after"):
+		return "err:exhausted"
+	// the same two classes when the messages are worded differently (no sentinel exists for either): the lock key was gone
+	// at the ownership check (the GET returned redis.Nil), and — an error that wraps nothing and is none of the above — the
+	// repository gave up after its attempts
+	case errors.Is(err, redis.Nil):
+		return "err:locklost"
+	case errors.Unwrap(err) == nil && !strings.Contains(err.Error(), "unmashal"):
 		return "err:exhausted"
 	}
 	return "err:other:" + strings.ReplaceAll(err.Error(), " ", "_")
